@@ -147,6 +147,7 @@ type Term struct {
 func (t *Term) IsConst() bool { return t.Op == OpConst }
 
 type TermTable struct {
+	realVars int // number of Real-sorted variables created (selects the solver escalation schedule)
 	tab    map[string]*Term
 	ktab   map[tkey]*Term
 	nextID int
@@ -249,6 +250,9 @@ func (tt *TermTable) Var(name string, s Sort) *Term {
 	t := tt.intern(Term{Op: OpVar, Sort: s, Name: name})
 	if tt.nextID != n0 {
 		tt.vars = append(tt.vars, t)
+		if s.K == SReal {
+			tt.realVars++
+		}
 	}
 	return t
 }
